@@ -236,8 +236,20 @@ fn run(ctx: &Ctx, cfg: &Cfg, user_seed: u64, only: Option<&[String]>) -> i32 {
         json!([
             "counters frames.close_over_budget / pn.short_buffer_assert_* record behaviour outside C10's statement (size budget of Close::encode; an assert behind a caller-side length check); they are not judged here",
             "cid.hashed_validate_* are probabilistic acceptance counts, not judged",
+            "note.* counters and observations_not_judged: decoder leniency/strictness on inputs the library never produces (malformed transport-parameter sets accepted, non-minimal varint values in transport parameters rejected, version negotiation packets with the unused bit clear dropped); C10 asks for totality and for round trips of what the library encodes, so these are recorded for C03 and not judged",
         ]),
     );
+    {
+        let obs = common::OBSERVATIONS.lock().unwrap();
+        let list: Vec<Value> = obs.iter().map(|(k, (n, ex))| json!({"observation": k, "count": n, "example": ex})).collect();
+        if ctx.replay.is_none() {
+            for (k, (n, ex)) in obs.iter() {
+                let ex: String = ex.chars().take(300).collect();
+                println!("NOTE: C10 observation, not judged ({n}x): {k}; e.g. {ex}");
+            }
+        }
+        rep.extra.insert("observations_not_judged".into(), json!(list));
+    }
     if only.is_some() {
         rep.extra.insert("only".into(), json!(only));
     }
